@@ -567,6 +567,12 @@ func (s *RecSink) ToReplicaID() uint64 { return s.To }
 // session, then the state machine's writes, through the compressor into the
 // chunk writer.
 func StreamChunks(sink *RecSink, meta rsm.SSMeta, segs [][]byte) error {
+	return StreamTo(sink, meta, segs)
+}
+
+// StreamTo is StreamChunks for any chunk sink (e.g. the Sink of a real
+// transport streaming job).
+func StreamTo(sink pb.IChunkSink, meta rsm.SSMeta, segs [][]byte) error {
 	ct := compressionType(meta.CompressionType)
 	cw := dio.NewCompressor(ct, rsm.NewChunkWriter(sink, meta))
 	if _, err := cw.Write(rsm.GetEmptyLRUSession()); err != nil {
